@@ -88,15 +88,23 @@ def judgeProc (givens : List (Option Bool)) (o : ProcObs) : String :=
   if o.rc != "0" then s!"skip:pandora-process-did-not-finish-normally-rc={o.rc}"
   -- "not fired but reported as a discarded sample": every result line that is not a discarded sample is a request the target
   -- received, and a discarded token never reaches the target
-  else if o.errs == 0 && o.recv != o.fired then
+  -- (a line that looks like a real request although the target never saw one is a discarded sample that does not read as one)
+  else if o.errs == 0 && o.fired > o.recv then
     s!"fail:discard-sample:{o.fired} result lines are not discarded samples but the target received {o.recv} requests (discarded={o.disc})"
+  -- every discarded token also arrived at the target
+  else if o.errs == 0 && o.disc ≥ 2 && o.recv ≥ o.fired + o.disc then
+    s!"fail:discard-sample:the target received {o.recv} requests, {o.fired} result lines are not discarded samples: the {o.disc} discarded tokens reached the target"
   else if o.pools.isEmpty then "fail:crash:no per-pool counts in the observation"
   else
     let total := o.total / o.pools.length
     let givenOf := fun (k : Nat) => if givens.length == 1 then givens.head?.getD none else (givens[k]?).getD none
     match (o.pools.zipIdx.filterMap fun (p, k) => judgePool (givenOf k) total k p).head? with
     | some v => v
-    | none => "ok"
+    | none =>
+      -- one request more than result lines: net/http re-sends an idempotent request whose connection failed before an answer
+      -- (seen once in ~600 process runs at load average 90); not decidable from the observation
+      if o.errs == 0 && o.recv > o.fired then "skip:inconclusive-the-target-received-more-requests-than-there-are-result-lines"
+      else "ok"
 
 def sortInts (l : List Int) : List Int := l.mergeSort (fun a b => decide (a ≤ b))
 
